@@ -151,6 +151,13 @@ input I @foo { "f" x: Int = 1 @foo y: E = A l: [Float] = 1 d: Date = "2020-01-01
     out.append(_case([_sdl('"t\\\\"\ntype Query {\n  "f\\\\"\n  a("x\\\\" b: Int): Int\n}\n"e\\\\"\nenum E { "v\\\\" A }\n'
                            '"i\\\\"\ninput I { "g\\\\" f: Int }\n"d\\\\"\ndirective @d("q\\\\" x: Int) on FIELD')],
                      [[0, DEFAULT], [0, _opts(indent=2)], [0, _opts(indent="\t")]], "description-trailing-backslash"))
+    # seeded C12-h: a deprecation reason is a String value printed by the value printer: characters above U+FFFF
+    # stay one character (no surrogate-pair escapes), other non-ASCII / control characters as the value printer has them
+    out.append(_case([_sdl('type Query {\n  a: Int @deprecated(reason: "rocket \U0001F680")\n'
+                           '  b: Int @deprecated(reason: "\U00010000 and \U0010FFFF")\n'
+                           '  c(x: String = "\U0001F680"): Int @deprecated(reason: "caf\u00e9 \u2028 \\"q\\" \\\\ \\b\\f\\t\\n \x7f \uffff")\n}\n'
+                           'enum E { A @deprecated(reason: "\U0001F680\U0001F600") B }\n')],
+                     [[0, DEFAULT], [0, _opts(indent=2)]], "deprecation-reason-non-bmp"))
     # seeded C12-d: enum defaults are printed as the member *holding* the internal value
     for k, mode in enumerate(gen_sdl.ENUM_VALUE_MODES):
         out.append(_enum_collision_case(_random.Random(2000 + k), mode=mode))
